@@ -577,17 +577,18 @@ func (fr *Frame) term(v ssa.Value) string {
 }
 
 func (ex *Exec) globalRef(g *ssa.Global) string {
-	name := "glob_" + sanitize(g.Pkg.Pkg.Name()+"_"+g.Name())
-	if !ex.vc.factSeen["decl:"+name] {
-		ex.vc.factSeen["decl:"+name] = true
-		h := 0
-		for _, c := range g.Pkg.Pkg.Path() + "." + g.Name() {
-			h = (h*31 + int(c)) % 1000003
-		}
-		ex.vc.items = append(ex.vc.items, fmt.Sprintf("(define-fun %s () Int (- %d))", name, h+1))
-		ex.vc.note("global %s.%s read as an arbitrary stable value (A-GLOBALS)", g.Pkg.Pkg.Name(), g.Name())
+	return ex.vc.globalRef(g.Pkg.Pkg.Path(), g.Pkg.Pkg.Name(), g.Name())
+}
+
+// globalRef: the address of a package-level variable (a fixed negative reference; A-GLOBALS: globals are
+// read as arbitrary but stable values, no verified body writes them).
+func (vc *VC) globalRef(pkgPath, pkgName, name string) string {
+	h := 0
+	for _, c := range pkgPath + "." + name {
+		h = (h*31 + int(c)) % 1000003
 	}
-	return name
+	vc.note("global %s.%s read as an arbitrary stable value (A-GLOBALS)", pkgName, name)
+	return fmt.Sprintf("(- %d)", h+1)
 }
 
 func (fr *Frame) constVal(c *ssa.Const) Val {
@@ -719,7 +720,7 @@ func (ex *Exec) assumeAllocated(st *State, v Val) {
 			ex.vc.assume(st.pc, fmt.Sprintf("(and (>= (len_%s %s) 0) (=> (nil_%s %s) (= (len_%s %s) 0)))", sn, v.t, sn, v.t, sn, v.t))
 		}
 	case *types.Pointer, *types.Map:
-		if strings.HasPrefix(v.t, "glob_") {
+		if strings.HasPrefix(v.t, "(- ") {
 			return
 		}
 		ex.vc.assume(st.pc, fmt.Sprintf("(and (<= 0 %s) (< %s %s))", v.t, v.t, st.next))
